@@ -43,9 +43,12 @@ def gen_io_workload(rng, inexpressible=None):
         return simio.wide_float(rng)
 
     verts = []  # (type, pose)
-    n_pose2 = rng.randint(1, 8) if dim in ("2d", "both") else 0
+    big = 12 if rng.random() < 0.03 else 1  # occasionally an order of magnitude more elements
+    if big > 1:
+        meta["big_graph"] = True
+    n_pose2 = rng.randint(1, 8) * big if dim in ("2d", "both") else 0
     n_land2 = rng.randint(0, 4) if n_pose2 else 0
-    n_pose3 = rng.randint(1, 8) if dim in ("3d", "both") else 0
+    n_pose3 = rng.randint(1, 8) * big if dim in ("3d", "both") else 0
     n_land3 = rng.randint(0, 4) if n_pose3 else 0
     for _ in range(n_pose2):
         ang = rng.choice([rng.uniform(-math.pi, math.pi), rng.uniform(-1e6, 1e6), 0.0, math.pi, -math.pi, math.nextafter(math.pi, 0), math.nextafter(-math.pi, -10)])
@@ -86,7 +89,7 @@ def gen_io_workload(rng, inexpressible=None):
     for t in ("SE2", "SE3"):
         ps = idx[t]
         if len(ps) >= 2:
-            for _ in range(rng.randint(1, min(12, 2 * len(ps)))):
+            for _ in range(rng.randint(1, min(12 * big, 2 * len(ps)))):
                 i, j = rng.sample(ps, 2)
                 if t == "SE2":
                     est = graphs.make_pose("SE2", [val(), val(), rng.uniform(-4, 4)])
